@@ -57,6 +57,7 @@ class Env:
         self.extra_axioms = []
         self.checked_labels = 0
         self.bad_labels = {}
+        self.deadline = None
         self.bounds = {}
         self.full_pin_tries = 30
         self.max_bad_per_label = 3
@@ -423,6 +424,8 @@ class Env:
             self.obls.append(Obl(label, 'unsat', 0.0, False, self.path_no))
             return 'unsat'
         base = label.split('[')[0]
+        if self.deadline is not None and time.time() > self.deadline:
+            raise StopCase('case budget exceeded')
         if self.bad_labels.get(base, 0) >= self.max_bad_per_label:
             # enough candidates / undecided instances of this obligation family: do not burn solver time
             self.obls.append(Obl(label, 'skipped', 0.0, True, self.path_no))
